@@ -4,7 +4,9 @@ import (
 	"go/constant"
 	"go/token"
 	"go/types"
+	"regexp"
 	"strings"
+	"sync"
 
 	"golang.org/x/tools/go/ssa"
 )
@@ -96,8 +98,8 @@ type Atom struct {
 	Neg  bool
 	Kind string // "call" (bool call result), "nilcmp" (X == nil), "cmp" (X op Y), "val" (opaque bool value)
 	Call *ssa.Call
-	Idx  int          // result index of Call used
-	Op   token.Token  // for cmp: EQL NEQ LSS LEQ GTR GEQ (already normalised so that Neg==false)
+	Idx  int         // result index of Call used
+	Op   token.Token // for cmp: EQL NEQ LSS LEQ GTR GEQ (already normalised so that Neg==false)
 	X, Y ssa.Value
 }
 
@@ -603,4 +605,18 @@ func addrDerivedFrom(v ssa.Value, p *ssa.Parameter, path string) bool {
 		}
 	}
 	return false
+}
+
+var reCache = map[string]*regexp.Regexp{}
+var reMu sync.Mutex
+
+func mustRe(p string) *regexp.Regexp {
+	reMu.Lock()
+	defer reMu.Unlock()
+	if r, ok := reCache[p]; ok {
+		return r
+	}
+	r := regexp.MustCompile(p)
+	reCache[p] = r
+	return r
 }
